@@ -53,6 +53,9 @@ fn parent_doc(dm: &str, bid: u32) -> String {
   <transition event="cmd.8"><send event="m.a8" idlocation="gen" target="#_scxml_{bid}"/><send event="m.a8b" idlocation="gen2" target="#_scxml_{bid}"/><script>mark('genid', gen, gen2)</script></transition>
   <transition event="cmd.9"><send event="m.a9" id="explicit-id" target="#_scxml_{bid}"/></transition>
   <transition event="cmd.10"><send event="mi.a10" targetexpr="'#_' + 'internal'"/></transition>
+  <transition event="cmd.11"><send event="m.fenceA"/></transition>
+  <transition event="cmd.12"><send event="m.fenceB" target="#_scxml_{bid}"/></transition>
+  <transition event="cmd.13"><send event="m.fenceC" target="#_kid"/></transition>
 {recv}
  </state>
 </scxml>"##,
@@ -119,14 +122,30 @@ fn routing(dm: &str, rep: &mut Report) {
     wait_stable(&mut a, 2); // m.c1, m.c2 from the child
     let aid = a.session.session_id;
     let mut sent = 2;
-    for k in 1..=10 {
+    for k in 1..=13 {
         a.send(&format!("cmd.{}", k));
         sent += 1;
         wait_stable(&mut a, sent);
-        // replies and self-sends arrive asynchronously: let things settle
-        std::thread::sleep(Duration::from_millis(15));
     }
-    std::thread::sleep(Duration::from_millis(100));
+    // Fences: cmd.11..13 send one more event along each route (A->A, A->B->A, A->kid->A).  The
+    // queues are FIFO per producer, so once A has processed the three fence replies every earlier
+    // event and reply on those routes has been delivered.  The watchdog only yields "inconclusive".
+    let t0 = std::time::Instant::now();
+    loop {
+        let l = rec::snapshot_log();
+        let got = |n: &str| l.iter().any(|e| matches!(&e.ev, Ev::XRecv(ev) if ev.name == n));
+        if got("reply.m.fenceA") && got("reply.m.fenceB") && got("reply.m.fenceC") {
+            break;
+        }
+        if t0.elapsed() > Duration::from_secs(90) {
+            rep.inconclusive(&format!("[{}] the fence replies did not all arrive within the watchdog", dm));
+            a.finish();
+            b.finish();
+            let _ = rec::take_log();
+            return;
+        }
+        std::thread::sleep(Duration::from_millis(10));
+    }
     let log = rec::snapshot_log();
     // child session id and thread from its marks
     let child = log.iter().find_map(|e| match &e.ev {
